@@ -378,7 +378,9 @@ func (e *Engine) modelWrites(f *ssa.Function, call *ssa.CallCommon, set map[stri
 		set["E|byte|*"] = true
 		set[allocName] = true
 	case "(*encoding/gob.Encoder).Encode":
-		set["G|gob|*"] = true
+		for _, n := range []string{"K", "Vtag", "Vval", "E", "C", "len", "src", "idx"} {
+			set["G|gob|"+n] = true
+		}
 	case "sort.Slice":
 		set["H|*"] = true
 		set["E|*"] = true
